@@ -78,7 +78,7 @@ def cnf_task(ctx):
             ctx.oblige(f"cnf/post#{i}:completeness(consistent+witness=>Sat)", o.st.pc, z3.Implies(z3.And(witness(ctx, mu), consistent), sat), "post")
         ctx.oblige(f"cnf/frame#{i}:circuit-untouched", o.st.pc, verify.heap_eq(ex, o.st.heap, st0.heap, list(st0.heap)), "frame")
     ctx.oblige("cnf/cover:returns-on-some-path", [], z3.BoolVal(n_ret > 0), "cover")
-    return {"function": f"{F}::cnf", "sha256": sha, "lines": [fn.lineno, fn.end_lineno],
+    return {"function": f"{F}::cnf", "sha256": sha, "lines": engine.abs_lines(fn),
             "variants": ["typed circuit; single-input types <=1 driver; parity gates 1..2 drivers (chain for >=3 drivers: bounded only)"]}
 
 
@@ -120,7 +120,7 @@ def add_assumptions_task(ctx):
     body = verify.bind_and_run(ex, fn, st0, {"formula": formula, "variables": variables, "assumptions": A})
     specs = verify.run_summary(ex, sat_contracts.s_add_assumptions, st0, None, [formula, variables, A], {})
     verify.refine_vcs(ex, "add_assumptions", st0, body, specs)
-    return {"function": f"{F}::add_assumptions", "sha256": sha, "lines": [fn.lineno, fn.end_lineno], "variants": ["dict name->bool"]}
+    return {"function": f"{F}::add_assumptions", "sha256": sha, "lines": engine.abs_lines(fn), "variants": ["dict name->bool"]}
 
 
 def solve_task(with_assumptions):
